@@ -362,6 +362,8 @@ Definition enc_pair (gk gv : val -> res bytes) : enc (val * val) :=
 
 Definition vlen {A} (l : list A) : N := N.of_nat (length l).
 
+Definition is_errnil (v : val) : bool := match v with VErrNil => true | _ => false end.
+
 (* [et] = state.encodeType (true only for the dynamic value of an interface) *)
 Fixpoint enc_val (f : nat) (o : opts) (et : bool) (t : ty) (v : val) {struct f} : res bytes :=
   match f with
@@ -370,10 +372,8 @@ Fixpoint enc_val (f : nat) (o : opts) (et : bool) (t : ty) (v : val) {struct f} 
     let h := if et then ty_hdr o t else [] in
     match t with
     | TPrim p =>
-      match p, v, et with
-      | PError, VErrNil, true => Err EType      (* an interface never holds a nil error *)
-      | _, _, _ => b <- enc_prim o p v ;; Ok (h ++ b)
-      end
+      if et && is_errnil v then Err EType       (* an interface never holds a nil error *)
+      else b <- enc_prim o p v ;; Ok (h ++ b)
     | TAny =>                                    (* encodeAny *)
       if et then Err EType else
       match v with
@@ -628,9 +628,38 @@ Fixpoint canon (o : opts) (v : val) : val :=
   | _ => v
   end.
 
+(* ---- well-formed options: what the handshake guarantees -------------------------------------------
+   cache ids are unique 16-bit numbers (reg ids above 4095, error ids never 65535 = nil),
+   registered names are at most 4095 bytes (regEncoder panics otherwise) *)
+Fixpoint nodupb (l : list N) : bool :=
+  match l with
+  | [] => true
+  | x :: r => negb (existsb (N.eqb x) r) && nodupb r
+  end.
+
+Definition cache_ok {A} (lo hi : N) (c : option (list (A * N))) : bool :=
+  match c with
+  | None => true
+  | Some l => nodupb (map snd l) && forallb (fun p => (lo <? snd p) && (snd p <? hi)) l
+  end.
+
+Definition wf_opts_b (o : opts) : bool :=
+  match o_atom_cache o with
+  | None => true
+  | Some l => nodupb (map snd l) && forallb (fun p => snd p <? 65536) l
+  end &&
+  cache_ok maxRegName 65536 (o_reg_cache o) &&
+  match o_err_cache o with
+  | None => true
+  | Some l => nodupb (map snd l) && forallb (fun p => snd p <? 65535) l
+  end &&
+  forallb (fun e => blen (fst e) <=? maxRegName) (o_reg o).
+
+Definition wf_opts (o : opts) : Prop := wf_opts_b o = true.
+
 (* ---- guards: inputs on which the unchanged code is known NOT to round-trip (findings/C11.md) -------
    (1) zero-width elements: an element type whose encoding may be empty ([0]T, struct{} types)
-       inside a slice / array / map - the decoders' "n > len(packet)" / "len(packet) == 0" checks
+       inside a non-empty slice / array / map - the decoders' "n > len(packet)" / "len(packet) == 0" checks
        reject the encoder's own output;
    (2) unnamed array types as map keys - decodeType wants a composite to end the fold;
    (3) atoms: a mapping target longer than 255 bytes is written with a uint16 length the reader
@@ -656,12 +685,13 @@ Definition atom_ok (o : opts) (a : bytes) : bool :=
   let a' := map_atom (o_atom_map o) a in
   (blen a' <=? maxAtom) && bytes_eqb (map_atom (o_atom_map (dual o)) a') a.
 
-Definition prim_guard (o : opts) (v : val) : bool :=
-  match v with
-  | VPid node _ _ => atom_ok o node
-  | VNames node name => atom_ok o node && atom_ok o name
-  | VRef node _ _ _ _ => atom_ok o node
-  | _ => true
+Definition pguard (o : opts) (p : prim) (v : val) : bool :=
+  match p, v with
+  | PAtom, VBytes a => atom_ok o a
+  | PPid, VPid node _ _ => atom_ok o node
+  | PProcessID, VNames node name | PEvent, VNames node name => atom_ok o node && atom_ok o name
+  | PRef, VRef node _ _ _ _ | PAlias, VRef node _ _ _ _ => atom_ok o node
+  | _, _ => true
   end.
 
 Definition key_ty_ok (t : ty) : bool :=
@@ -678,6 +708,8 @@ Fixpoint ty_guard (t : ty) : bool :=
 (* a descriptor the peer can unfold: no unnamed composite map key, length fits the uint16 field *)
 Definition desc_ok (o : opts) (t : ty) : bool := ty_guard t && (blen (prefix o t) <? 65536).
 
+Definition is_nil {A} (l : list A) : bool := match l with [] => true | _ => false end.
+
 Fixpoint guard_fields (g : ty -> val -> bool) (ts : list ty) (vs : list val) : bool :=
   match ts, vs with
   | t :: ts', v :: vs' => g t v && guard_fields g ts' vs'
@@ -689,16 +721,15 @@ Fixpoint guard (f : nat) (o : opts) (t : ty) (v : val) {struct f} : bool :=
   | O => false
   | S f' =>
     match t with
-    | TPrim PAtom => match v with VBytes a => atom_ok o a | _ => true end
-    | TPrim _ => prim_guard o v
+    | TPrim p => pguard o p v
     | TAny => match v with VAny t' v' => desc_ok o t' && guard f' o t' v' | _ => true end
     | TSlice t' =>
-      match v with VList l => minw_pos f' o t' && forallb (guard f' o t') l | _ => true end
+      match v with VList l => (vlen l <? 4294967296) && (is_nil l || minw_pos f' o t') && forallb (guard f' o t') l | _ => true end
     | TArray n t' =>
       match v with VList l => ((n =? 0) || minw_pos f' o t') && forallb (guard f' o t') l | _ => true end
     | TMap tk tv =>
       match v with
-      | VMap l => (minw_pos f' o tk || minw_pos f' o tv) &&
+      | VMap l => (vlen l <? 4294967296) && (is_nil l || minw_pos f' o tk || minw_pos f' o tv) &&
                   forallb (fun kv => guard f' o tk (fst kv) && guard f' o tv (snd kv)) l
       | _ => true
       end
@@ -707,12 +738,12 @@ Fixpoint guard (f : nat) (o : opts) (t : ty) (v : val) {struct f} : bool :=
       | Some (RPrim _) => true
       | Some (RStruct fs) => match v with VList l => guard_fields (guard f' o) fs l | _ => true end
       | Some (RSlice t') =>
-        match v with VList l => minw_pos f' o t' && forallb (guard f' o t') l | _ => true end
+        match v with VList l => (vlen l <? 4294967296) && (is_nil l || minw_pos f' o t') && forallb (guard f' o t') l | _ => true end
       | Some (RArray n t') =>
         match v with VList l => ((n =? 0) || minw_pos f' o t') && forallb (guard f' o t') l | _ => true end
       | Some (RMap tk tv) =>
         match v with
-        | VMap l => (minw_pos f' o tk || minw_pos f' o tv) &&
+        | VMap l => (vlen l <? 4294967296) && (is_nil l || minw_pos f' o tk || minw_pos f' o tv) &&
                     forallb (fun kv => guard f' o tk (fst kv) && guard f' o tv (snd kv)) l
         | _ => true
         end
